@@ -472,10 +472,15 @@ func c05Progress(p *Prog, r *Report, rr *reqRoles) {
 	}
 	// the reply on exhaustion is a ServerError built in the loop function
 	found := false
-	eachInstr(rr.execLoop, func(in ssa.Instruction) {
-		if a, ok := in.(*ssa.Alloc); ok && typeIs(a.Type(), "message", "ServerError") {
-			found = true
+	for _, f := range withCallees(p, rr.execLoop, 2) {
+		if f != rr.execLoop && !rr.helper(p, f) {
+			continue
 		}
-	})
+		eachInstr(f, func(in ssa.Instruction) {
+			if a, ok := in.(*ssa.Alloc); ok && typeIs(a.Type(), "message", "ServerError") {
+				found = true
+			}
+		})
+	}
 	r.check(found, rule, "exhaustion-error", p.Pos(rr.execLoop.Pos()), "plan exhaustion answers with a ServerError", "plan exhaustion does not answer with a ServerError")
 }
